@@ -95,6 +95,9 @@ fam("types and domains", I("a", 1), I("b", 1, itype="exterior_facet"), I("c", 1,
 fam("interior facets and vertices", I("a", 1, itype="interior_facet"), I("b", itype="interior_facet"), I("c", 3, itype="vertex"), I("d", (1, 3), itype="interior_facet"))
 fam("extra domain maps", I("a", 1, extra=[(1, "cell")]), I("b", 1, extra=[(1, "exterior_facet")]), I("c", 1), I("d", extra=[(1, "cell")]), I("e", 2, extra=[(1, "cell")]))
 fam("coordinate derivatives", I("a", 1, cd="w"), I("b", 1, cd="w"), I("c", 1), I("d", 1, cd="z"), I("e", cd="w"), I("f", 2, cd="w"))
+# chains of coordinate derivatives (second shape derivatives), also the same direction twice
+fam("second coordinate derivatives", I("a", 1, cd=("w", "w")), I("b", 1), I("c", 1, cd=("z", "z")), I("d", 1, cd=("w", "z")), I("e", 1, cd="w"), I("f", 1, cd=("w", "w")))
+fam("second coordinate derivatives, everywhere + ids", I("a", cd=("w", "w")), I("b"), I("c", 1, cd=("z", "z")), I("d", (1, 2)), I("e", 2, cd=("z", "w")))
 fam("ids 9, 10, 11 and tuples", I("a", 10), I("b", 9), I("c", (11, 9)), I("d"), I("e", 11, md={"q": 1}))
 fam("many everywhere integrals, three metadata", I("a", md={"q": 1}), I("b", md={"q": 2}), I("c", md={"q": 1}), I("d", 1, md={"q": 3}), I("e", (1, 2), md={"q": 1}))
 
@@ -136,8 +139,8 @@ def run(ctx) -> Report:
             groups = {}
             for sp in specs:
                 e = atom(sp["atoms"])
-                if sp["cd"]:
-                    a, b, c = cd_parts(sp["cd"])
+                for cdn in cd_chain(sp["cd"]):
+                    a, b, c = cd_parts(cdn)
                     e = W.op("CoordinateDerivative", e, a, b, c)
                 extra = [(meshes[k], it) for k, it in sp["extra"]] if sp["extra"] else None
                 integrals.append(W.integral(e, sp["itype"], meshes[sp["mesh"]], sp["sid"], sp["md"], None, extra))
@@ -152,7 +155,7 @@ def run(ctx) -> Report:
                 else:
                     sids = list(sp["sid"]) if isinstance(sp["sid"], tuple) else [sp["sid"]]
                 for s in sids:
-                    expected[(gkey, s, md_key(sp["md"]), sp["cd"], sp["atoms"])] += 1
+                    expected[(gkey, s, md_key(sp["md"]), tuple(sorted(cd_chain(sp["cd"]))), sp["atoms"])] += 1
             tag = f"{fname} [append={append}]"
             try:
                 form = W.form(integrals)
@@ -162,11 +165,12 @@ def run(ctx) -> Report:
                 for itg in W.call_method(out, "integrals"):
                     A = itg.attrs
                     e = A["_integrand"]
-                    cdname = None
+                    chain = []
                     while ip.obj_class(e).name == "CoordinateDerivative":
                         ops = e.attrs["ufl_operands"]
-                        cdname = next(nm for nm, parts in cd_objs.items() if parts[0] is ops[1] or ip.obj_eq(parts[0], ops[1]))
+                        chain.append(next(nm for nm, parts in cd_objs.items() if parts[0] is ops[1] or ip.obj_eq(parts[0], ops[1])))
                         e = ops[0]
+                    cdname = tuple(sorted(chain))  # mixed second derivatives commute
                     mesh_k = next(k for k, mm in enumerate(meshes) if mm is A["_ufl_domain"] or ip.obj_eq(mm, A["_ufl_domain"]))
                     extra = tuple((next(k for k, mm in enumerate(meshes) if mm is d or ip.obj_eq(mm, d)), it) for d, it in A["_extra_domain_integral_type_map"].items())
                     gkey = (mesh_k, A["_integral_type"], extra)
@@ -212,6 +216,12 @@ def run(ctx) -> Report:
     return rep
 
 
+def cd_chain(cd):
+    if not cd:
+        return ()
+    return (cd,) if isinstance(cd, str) else tuple(cd)
+
+
 def leaves(ip, e):
     k = ip.obj_class(e)
     if k is not None and k.name == "Sum":
@@ -224,5 +234,5 @@ def leaves(ip, e):
 def fmt(counter):
     out = []
     for (gkey, s, mdk, cd, ch), n in sorted(counter.items(), key=repr)[:6]:
-        out.append(f"{n}x {ch} on mesh{gkey[0]}/{gkey[1]}{'/extra' + str(gkey[2]) if gkey[2] else ''} id {s} metadata {mdk[1:] if len(mdk) > 1 else '{}'}{' d/d' + cd if cd else ''}")
+        out.append(f"{n}x {ch} on mesh{gkey[0]}/{gkey[1]}{'/extra' + str(gkey[2]) if gkey[2] else ''} id {s} metadata {mdk[1:] if len(mdk) > 1 else '{}'}{' d/d' + ','.join(cd) if cd else ''}")
     return "; ".join(out) or "-"
